@@ -33,10 +33,41 @@ type memProxy struct{ M *Mem }
 
 func (p *memProxy) Read(a uint32) byte     { return p.M.Read(a) }
 func (p *memProxy) Write(a uint32, v byte) { p.M.Write(a, v) }
-func (p *memProxy) Shutdown()              {}
-func (p *memProxy) Size() uint32           { return 1 << 24 }
-func (p *memProxy) Clear()                 {}
-func (p *memProxy) Dump(uint32) []byte     { return nil }
+
+// busWindows: the flat 16 MiB memory is attached as three windows (lower half, upper half without its last 16
+// bytes, the last 16 bytes), each with its own handler that knows its range.
+var busWindows = [][2]uint32{{0, 0x7fffff}, {0x800000, 0xffffef}, {0xfffff0, 0xffffff}}
+
+// memWindow is the handler of one window for bus.Bus.
+type memWindow struct {
+	*memProxy
+	lo, hi uint32
+}
+
+func (w memWindow) Read(a uint32) byte {
+	if a < w.lo || a > w.hi {
+		w.M.Misrouted(a, w.lo, w.hi)
+	}
+	return w.M.Read(a)
+}
+func (w memWindow) Write(a uint32, v byte) {
+	if a < w.lo || a > w.hi {
+		w.M.Misrouted(a, w.lo, w.hi)
+	}
+	w.M.Write(a, v)
+}
+
+func attachFlat(b *bus.Bus, p *memProxy) {
+	for _, w := range busWindows {
+		if err := b.Attach(memWindow{p, w[0], w[1]}, "flat", w[0], w[1]); err != nil {
+			panic(err)
+		}
+	}
+}
+func (p *memProxy) Shutdown()          {}
+func (p *memProxy) Size() uint32       { return 1 << 24 }
+func (p *memProxy) Clear()             {}
+func (p *memProxy) Dump(uint32) []byte { return nil }
 
 // CPU abstracts over the two interpreters.
 type CPU interface {
@@ -134,9 +165,7 @@ func (p *Primary) Fork() CPU {
 func NewPrimary() *Primary {
 	b, _ := bus.New()
 	p := &memProxy{M: NewMem(0)}
-	if err := b.Attach(p, "flat", 0, 0xffffff); err != nil {
-		panic(err)
-	}
+	attachFlat(b, p)
 	c, _ := cpu65c816.New(b)
 	return &Primary{C: c, Bus: b, proxy: p}
 }
@@ -219,16 +248,30 @@ func NewAlt() *Alt {
 	c := &cpualt.CPU{}
 	c.Init()
 	p := &memProxy{M: NewMem(0)}
-	c.Bus.AttachReader(0, 0xffffff, func(a uint32) uint8 { return p.M.Read(a) })
-	c.Bus.AttachWriter(0, 0xffffff, func(a uint32, v uint8) { p.M.Write(a, v) })
-	return &Alt{C: c, proxy: p}
+	a := &Alt{C: c, proxy: p}
+	a.Rebind()
+	return a
 }
 
 // Rebind attaches the CPU's bus to this adapter's own memory again (after InitFrom copied
 // another CPU's bus tables).
 func (p *Alt) Rebind() {
-	p.C.Bus.AttachReader(0, 0xffffff, func(a uint32) uint8 { return p.proxy.M.Read(a) })
-	p.C.Bus.AttachWriter(0, 0xffffff, func(a uint32, v uint8) { p.proxy.M.Write(a, v) })
+	px := p.proxy
+	for _, w := range busWindows {
+		lo, hi := w[0], w[1]
+		p.C.Bus.AttachReader(lo, hi, func(a uint32) uint8 {
+			if a < lo || a > hi {
+				px.M.Misrouted(a, lo, hi)
+			}
+			return px.M.Read(a)
+		})
+		p.C.Bus.AttachWriter(lo, hi, func(a uint32, v uint8) {
+			if a < lo || a > hi {
+				px.M.Misrouted(a, lo, hi)
+			}
+			px.M.Write(a, v)
+		})
+	}
 }
 
 func (p *Alt) Name() string    { return "cpualt" }
@@ -310,9 +353,7 @@ func DiffArch(a, b wdc.Arch) []string {
 // attached to a flat proxy memory and the CPU is initialised on it.
 func NewPrimaryOn(c *cpu65c816.CPU, b *bus.Bus) *Primary {
 	p := &memProxy{M: NewMem(0)}
-	if err := b.Attach(p, "flat", 0, 0xffffff); err != nil {
-		panic(err)
-	}
+	attachFlat(b, p)
 	c.Init(b)
 	return &Primary{C: c, Bus: b, proxy: p}
 }
